@@ -25,7 +25,8 @@ def gen_paths(rng, R, arches):
         tab = {}
         for a in arches:
             if rng.random() < 0.8:
-                tab[a] = "%s/%s/%s" % (rstr(rng, LOWER, 3, 6), a, cat) if rng.random() < 0.9 else ""
+                tab[a] = ("%s/%s/%s" % (rstr(rng, LOWER, 3, 6), a, cat) if rng.random() < 0.9 else "") if rng.random() < 0.9 else \
+                    rng.choice(["Server/%s//os" % a, "a///b/", "./%s/" % cat])
         if rng.random() < 0.25:
             # an architecture the variant does not have (another real one, the source pseudo-architectures, or junk): not stored
             tab[rng.choice(["foreign", "src", "nosrc", "noarch", "s390x"])] = "nowhere"
@@ -55,7 +56,7 @@ def gen_ci(rng, R=None):
     for t in rng.sample(["Server", "Client", "Workstation", "AppStream", "HA", "SAP"], rng.choice([0, 1, 1, 2, 2, 3, 3])):      # ids are unique among siblings only
         arches = sorted(rng.sample(ARCHES, rng.randint(1, 3)))
         tops[t] = gen_tree(rng, R, t, t, arches, 1, top=True)
-    free = [t for t in tops if "optional" not in tops[t][3]]
+    free = [t for t in tops if "optional" not in tops[t][3] or rng.random() < 0.15]      # (rarely) colliding with a nested UID
     if rng.random() < 0.3 and free:            # the documented 'Server-optional' case: dashed top-level UID, childless
         t = rng.choice(free)
         key = t + "optional"
